@@ -626,15 +626,16 @@ impl CanonicalRequest {
         let mut missing_messages = Vec::new();
         let mut builder = SigV4Authenticator::builder();
 
-        // Rule 7c: Use the first value for each key.
+        // Rule 7c: Use the first value for each key. The stored values are percent-encoded (normalized), so they
+        // must be decoded before use.
         if let Some(credential) = self.query_parameters.get(X_AMZ_CREDENTIAL) {
-            builder.credential(credential[0].clone());
+            builder.credential(unescape_uri_encoding(&credential[0]));
         } else {
             missing_messages.push(MSG_QUERY_STRING_MUST_INCLUDE_CREDENTIAL);
         }
 
         if let Some(signature) = self.query_parameters.get(X_AMZ_SIGNATURE) {
-            builder.signature(signature[0].clone());
+            builder.signature(unescape_uri_encoding(&signature[0]));
         } else {
             missing_messages.push(MSG_QUERY_STRING_MUST_INCLUDE_SIGNATURE);
         }
@@ -663,10 +664,10 @@ impl CanonicalRequest {
 
         // Get the session token if present.
         if let Some(token) = self.query_parameters.get(X_AMZ_SECURITY_TOKEN) {
-            builder.session_token(token[0].clone());
+            builder.session_token(unescape_uri_encoding(&token[0]));
         }
 
-        let timestamp_str = timestamp_str.expect("date_str should be set")[0].clone();
+        let timestamp_str = unescape_uri_encoding(&timestamp_str.expect("date_str should be set")[0]);
         Ok(AuthParams {
             builder,
             signed_headers,
